@@ -122,6 +122,13 @@ def r02_2(ctx, run, rule='R02.2'):
                     k = deref_all(t[2][1])
                     if k[0] == 'const' and isinstance(k[1], tuple) and all(isinstance(x, int) for x in k[1]):
                         eqs.extend(k[1])
+                # `buf.get(i + 1..i + 4) == Some(b"x0C")`: an equality of the look-ahead slice with a byte-string constant
+                elif t[0] == 'call' and c[2] is True and canon(t[1]).split('::')[-1] == 'eq' and len(t[2]) == 2:
+                    ks = [x for x in subterms(t) if x[0] == 'const' and isinstance(x[1], tuple) and x[1] and all(isinstance(y, int) for y in x[1])]
+                    if len(ks) == 1:
+                        eqs.extend(ks[0][1])
+                    else:
+                        helpers.add('an equality this rule does not read')
             classes.add((steps, ws, tuple(consts), tuple(sorted(eqs))))
             for e in p.calls():
                 if local_callee(e) and canon(e[1]).split('::')[-1] not in ('step', 'step_by', 'error', 'skip_unused'):
